@@ -9,6 +9,7 @@ import (
 	"fmt"
 	"io"
 	"strconv"
+	"strings"
 	"sync"
 	"unicode/utf8"
 
@@ -23,6 +24,8 @@ type target interface {
 	ioWriteString(s string)
 	ioWriteByte(c byte)
 	ioWriteRune(r rune)
+	// writer: the target as a plain io.Writer (ready for unsafe bytes)
+	writer() io.Writer
 	// buffer-only operations; ok=false if not supported by the target
 	buf() *redact.ManualBuffer
 	state() (fmt.State, rune)
@@ -49,6 +52,7 @@ func (t *sbTarget) ioWrite(p []byte)                  { t.b.Write(p) }
 func (t *sbTarget) ioWriteString(s string)            { t.b.WriteString(s) }
 func (t *sbTarget) ioWriteByte(c byte)                { t.b.WriteByte(c) }
 func (t *sbTarget) ioWriteRune(r rune)                { t.b.WriteRune(r) }
+func (t *sbTarget) writer() io.Writer                 { return t.b }
 func (t *sbTarget) buf() *redact.ManualBuffer         { return &t.b.Buffer }
 func (t *sbTarget) state() (fmt.State, rune)          { return nil, 0 }
 
@@ -76,6 +80,7 @@ func (t *printerTarget) ioWrite(p []byte)                  { t.p.Write(p) }
 func (t *printerTarget) ioWriteString(s string)            { io.WriteString(t.p, s) }
 func (t *printerTarget) ioWriteByte(c byte)                { t.p.Write([]byte{c}) }
 func (t *printerTarget) ioWriteRune(r rune)                { t.p.Write([]byte(string(r))) }
+func (t *printerTarget) writer() io.Writer                 { return t.p }
 func (t *printerTarget) buf() *redact.ManualBuffer         { return nil }
 func (t *printerTarget) state() (fmt.State, rune)          { return t.p, t.verb }
 
@@ -116,6 +121,7 @@ func (t *mbTarget) ioWrite(p []byte)          { t.unsafe(); t.b.Write(p) }
 func (t *mbTarget) ioWriteString(s string)    { t.unsafe(); t.b.WriteString(s) }
 func (t *mbTarget) ioWriteByte(c byte)        { t.unsafe(); t.b.WriteByte(c) }
 func (t *mbTarget) ioWriteRune(r rune)        { t.unsafe(); t.b.WriteRune(r) }
+func (t *mbTarget) writer() io.Writer         { t.unsafe(); return t.b }
 func (t *mbTarget) buf() *redact.ManualBuffer { return t.b }
 func (t *mbTarget) state() (fmt.State, rune)  { return nil, 0 }
 
@@ -208,6 +214,9 @@ func lentArgs(what string, args []interface{}) {
 	}
 }
 
+// onlyReader hides every optional interface of a reader (WriterTo...).
+type onlyReader struct{ io.Reader }
+
 // observer receives the results of accessor ops.
 type observer func(i int, op *Op, result interface{})
 
@@ -272,6 +281,20 @@ func runCompiledOp(t target, i int, c *compiled, inst int, obs observer) {
 		lent("Write", b, op.str(inst))
 	case "WriteString":
 		t.ioWriteString(op.str(inst))
+	case "IOCopy":
+		// the target is an io.Writer like any other: io.Copy uses ReadFrom if
+		// the destination has one, Write otherwise; the bytes are unsafe
+		if op.str(inst) == "" || len(op.str(inst)) > 16384 {
+			// (io.Copy of nothing never calls the writer, and it hands over a
+			// long payload in chunks of 32 KiB, which may cut a rune: each chunk
+			// is then a payload of its own that is not valid UTF-8. Keep the op
+			// one write of one payload.)
+			t.ioWrite([]byte(op.str(inst)))
+		} else {
+			io.Copy(t.writer(), onlyReader{strings.NewReader(op.str(inst))})
+		}
+	case "StdFprint":
+		fmt.Fprint(t.writer(), op.str(inst))
 	case "WriteByte":
 		t.ioWriteByte(byte(op.int(inst)))
 	case "WriteRune":
@@ -437,7 +460,7 @@ func modelOps(ops []*Op, inst int) (segs []segment, exact bool) {
 			}
 			add(cl, []byte{c})
 			mode = cl
-		case "UnsafeString", "UnsafeBytes", "Write", "WriteString":
+		case "UnsafeString", "UnsafeBytes", "Write", "WriteString", "IOCopy", "StdFprint":
 			add(segUnsafe, []byte(op.str(inst)))
 			mode = segUnsafe
 		case "Print":
@@ -537,7 +560,7 @@ func modelPrefixes(ops []*Op, inst int) []prefixModel {
 			switch op.K {
 			case "SafeString", "SafeBytes", "SafeInt", "SafeUint", "SafeFloat", "SafeRune", "SafeByte":
 				mode = segSafe
-			case "UnsafeString", "UnsafeBytes", "Write", "WriteString", "UnsafeRune", "WriteRune", "UnsafeByte", "WriteByte":
+			case "UnsafeString", "UnsafeBytes", "Write", "WriteString", "UnsafeRune", "WriteRune", "UnsafeByte", "WriteByte", "IOCopy", "StdFprint":
 				mode = segUnsafe
 			case "Print", "Printf":
 				mode = segRaw
